@@ -104,6 +104,23 @@ def lean_sources():
     return sorted(out)
 
 
+def import_closure(roots):
+    """project-local .lean files reachable through `import` from the given module names"""
+    seen = {}
+    todo = list(roots)
+    while todo:
+        m = todo.pop()
+        if m in seen:
+            continue
+        path = os.path.join(LEAN, *m.split('.')) + '.lean'
+        if not os.path.exists(path):
+            continue
+        seen[m] = path
+        for im in re.findall(r'^import\s+(\S+)', open(path).read(), re.M):
+            todo.append(im)
+    return sorted(seen.values())
+
+
 def theorems_of(prop):
     """names of the property theorems stated in Props/<prop>.lean"""
     path = os.path.join(LEAN, 'Props', prop + '.lean')
@@ -157,7 +174,7 @@ def proof_step(ctx, extra_targets=()):
     res['theorems'] = [{'name': t, 'axioms': sorted(ax.get(t, []))} for t in thms]
     res['discharged'] = len(thms) - len(bad)
     hits = []
-    for p in lean_sources():
+    for p in import_closure(['Props.' + prop, 'Driver.Main'] + list(extra_targets)):
         for m in FORBIDDEN.finditer(strip_comments(open(p).read())):
             hits.append('%s: %s' % (os.path.relpath(p, LEAN), m.group(0).strip()))
     if bad:
